@@ -84,6 +84,10 @@ PYTHON = '/venv/bin/python' if os.path.exists('/venv/bin/python') else sys.execu
 DIRS = ['', 'sub', 'sub/deep']
 NAMES = ['a.txt', 'b', 'cg.pdb', 'topol.top', 'x.tar.gz', '.hid', 'sp ace.itp', 'we#ird', 'é.dat']
 TEXT_ALPHA = 'abcxyzABC019 ;#.\n\n'
+MODES = ['w', 'a', 'w', 'a', 'wb', 'ab', 'w+', 'r+', 'wt', 'w+b', 'r+b', 'at']
+if os.environ.get('VERIF_C07_APLUS'):
+    # outside the sound domain (see ASSUMPTIONS / notes): a+ is finalised as a replacement by the code
+    MODES = MODES + ['a+', 'a+b']
 
 
 # ---------------------------------------------------------------------------
@@ -619,7 +623,7 @@ def _ops_strategies():
                                       'slots': slots})
     dopen = st.fixed_dictionaries({
         'op': st.just('dopen'), 'p': pidx, 'style': style,
-        'mode': st.sampled_from(['w', 'a', 'w', 'a', 'wb', 'ab', 'w+', 'r+', 'wt', 'w+b', 'r+b', 'at']),
+        'mode': st.sampled_from(MODES),
         're': st.sampled_from(['a', 'w']),
         'chunks': st.lists(raw, min_size=0, max_size=3),
         'kw': st.sampled_from([{}, {}, {}, {'encoding': 'utf-8'}, {'newline': '\n'}, {'buffering': -1}]),
@@ -1114,18 +1118,18 @@ PARTS = [
          shrink_budget={'quick': 3, 'thorough': 6},
          floors={'gate-shut': 0.2, 'gate-open-with-warnings': 0.08}),
     Part('history', _run_history, strategy=_strategy_history,
-         examples={'quick': 3200, 'thorough': 80000},
+         examples={'quick': 3200, 'thorough': 120000},
          floors={'finalise-backup': 0.2, 'finalise-backup-occupied': 0.1, 'finalise-backup-gap': 0.03,
                  'finalise-append-existing': 0.1, 'discard-nonempty': 0.2, 'chdir-while-pending': 0.15,
-                 'reopen-w->a': 0.04, 'reopen-w->w': 0.04, 'reopen-a->a': 0.04, 'open-r+': 0.05,
+                 'reopen-w->a': 0.03, 'reopen-w->w': 0.03, 'reopen-a->a': 0.03, 'open-r+': 0.05,
                  'temp-on-other-filesystem': 0.15, 'finalise-multi': 0.1}),
     Part('crash-points', _run_crash, strategy=_strategy_crash,
-         examples={'quick': 640, 'thorough': 10000},
+         examples={'quick': 640, 'thorough': 16000},
          floors={'between-backup-and-move': 0.3, 'append-to-existing': 0.12, 'several-files': 0.2,
                  'backup-slot-occupied': 0.15, 'fault-at-handle.write': 0.2, 'fault-at-os.remove': 0.2,
                  'temp-on-other-filesystem': 0.1}),
     Part('writers-defer', _run_writers, strategy=_strategy_writers,
-         examples={'quick': 320, 'thorough': 4000},
+         examples={'quick': 320, 'thorough': 6000},
          floors={'destination-preexists': 0.3, 'end-discard': 0.08, 'end-discard-then-finalise': 0.08, 'end-finalise': 0.3,
                  'writer-top': 0.15, 'writer-pdb': 0.15, 'writer-gro': 0.15, 'writer-dssp': 0.15, 'writer-contacts': 0.15,
                  'writer-contacts-direct': 0.15, 'writer-atomtypes': 0.1, 'writer-nbparams': 0.1}),
